@@ -241,22 +241,13 @@ impl StreamAlphaNode {
                 WindowType::Tumbling => {
                     let window_start = (current_time / window_duration_ms) * window_duration_ms;
 
-                    // If we've moved to a new window, clear old events
-                    if self.last_window_start != 0 && window_start != self.last_window_start {
-                        self.events.clear();
-                        self.last_window_start = window_start;
-                    } else if self.last_window_start == 0 {
-                        self.last_window_start = window_start;
-                    }
+                    self.last_window_start = window_start;
 
-                    // Remove events from previous windows
-                    while let Some(event) = self.events.front() {
-                        if event.metadata.timestamp < window_start {
-                            self.events.pop_front();
-                        } else {
-                            break;
-                        }
-                    }
+                    // Remove events from previous windows. This runs after the
+                    // event that triggered it was buffered, so it must not clear
+                    // the whole buffer: the new event belongs to the current window.
+                    self.events
+                        .retain(|event| event.metadata.timestamp >= window_start);
                 }
                 WindowType::Session { timeout } => {
                     let timeout_ms = timeout.as_millis() as u64;
